@@ -319,4 +319,21 @@ def c02_f(ctx: Ctx):
     return res
 
 
-RULES = [c02_a, c02_b, c02_c, c02_d, c02_e, c02_f]
+SENTINELS_C02 = [
+    ("signac.job:Job.statepoint", "self._cached_statepoint", "the empty state point {} is a valid state point; treated as 'unknown' it is (re)loaded from a file that does not exist and init() fails"),
+    ("signac.job:Job.cached_statepoint", "self._cached_statepoint", "the empty state point {} is valid; treated as 'unknown' it triggers a workspace look-up that raises KeyError for an uninitialised job"),
+    ("signac.job:Job.__init__", "statepoint", "open_job({}) must open the job of the empty state point, not raise 'Either statepoint or id_ must be provided'"),
+    ("signac.job:Job.__init__", "id_", "an id is 'not given' only if it is None"),
+    ("signac.project:Project.open_job", "statepoint", "open_job({}) must open the job of the empty state point"),
+    ("signac.project:Project.open_job", "id", "an id is 'not given' only if it is None"),
+]
+
+
+@rule("C02-g")
+def c02_g(ctx: Ctx):
+    """None is the only 'not given' sentinel for state points and ids: no truthiness decisions (the empty state point {} is valid)."""
+    from .lints import sentinel_discipline
+    return sentinel_discipline(ctx, "C02-g", SENTINELS_C02)
+
+
+RULES = [c02_a, c02_b, c02_c, c02_d, c02_e, c02_f, c02_g]
